@@ -54,6 +54,13 @@ func (r *AnthropicRequest) Validate() error {
 		}
 	}
 
+	// system is a string or a list of text blocks; anything else used to be dropped silently
+	switch r.System.(type) {
+	case nil, string, []interface{}:
+	default:
+		return fmt.Errorf("system must be a string or a list of content blocks")
+	}
+
 	// an unknown tool_choice would otherwise be sent upstream as "auto"
 	if r.ToolChoice != nil {
 		if err := validateToolChoice(r.ToolChoice); err != nil {
@@ -93,14 +100,30 @@ func (m *AnthropicMessage) validate(index int) error {
 	}
 	for j, b := range blocks {
 		block, ok := b.(map[string]interface{})
-		if !ok || block["type"] != "tool_use" {
-			continue
+		if !ok {
+			return fmt.Errorf("messages.%d.content.%d must be a content block object", index, j)
 		}
-		if id, _ := block["id"].(string); id == "" {
-			return fmt.Errorf("messages.%d.content.%d: tool_use block requires an id", index, j)
-		}
-		if name, _ := block["name"].(string); name == "" {
-			return fmt.Errorf("messages.%d.content.%d: tool_use block requires a name", index, j)
+		switch block["type"] {
+		case "text":
+			if _, isString := block["text"].(string); !isString {
+				return fmt.Errorf("messages.%d.content.%d: text block requires a text string", index, j)
+			}
+		case "tool_result":
+			if id, _ := block["tool_use_id"].(string); id == "" {
+				return fmt.Errorf("messages.%d.content.%d: tool_result block requires a tool_use_id", index, j)
+			}
+		case "tool_use":
+			if id, _ := block["id"].(string); id == "" {
+				return fmt.Errorf("messages.%d.content.%d: tool_use block requires an id", index, j)
+			}
+			if name, _ := block["name"].(string); name == "" {
+				return fmt.Errorf("messages.%d.content.%d: tool_use block requires a name", index, j)
+			}
+			if input, present := block["input"]; present && input != nil {
+				if _, isObject := input.(map[string]interface{}); !isObject {
+					return fmt.Errorf("messages.%d.content.%d: tool_use input must be an object", index, j)
+				}
+			}
 		}
 	}
 	return nil
